@@ -174,6 +174,18 @@ check("C12", "exploration",
       "runtime monitoring: differential oracle (port of the reference algorithm, self-validated) over the format-code cross product, rel + overflow-checked builds",
       "DESIGN.md §3 C12")
 
+check("C10", "exploration",
+      "Evaluates std.<fn>(args) for the array, set and higher-order functions named by the property on arrays of "
+      "length 0..3 over an 11-element mixed alphabet (exhaustive to 2), random arrays of length 4..8 with duplicates, "
+      "tagged objects (stability), key / predicate / fold / map functions defined twice (Jsonnet source + Python "
+      "callable, including partial and type-changing ones), and every pair of subsets of a 5-element universe under "
+      "3 key functions; compares value / error-ness with ports of the documented definitions and checks the sort "
+      "law (ordered, stable permutation) on the real output.",
+      "The reference ports abstain on undocumented corners (non-set inputs of set functions, fractional ranges "
+      "or indexes, folds over strings). Error identity is compared as error-vs-value, not by message.",
+      "runtime monitoring: differential oracle (ports of documented definitions) + output laws over generated calls",
+      "DESIGN.md §3 C10")
+
 NOT_APPLICABLE = []
 
 
